@@ -76,6 +76,79 @@ def sess_extras(seed):
     return dp.finish_session(lines, evs, text, seed, dp.features(lines))
 
 
+def ext_document(r):
+    """documents of the EXTENDED row machine: add-spine operators followed by the line that names the new spine, several
+    sections (a new header line after every spine was terminated), and - sometimes - a line with the unsupported exchange operator."""
+    from .. import gen
+    g = gen.DocGen(r, chords='core')
+    lines = []
+    for _ in range(r.choice([0, 0, 1])):
+        lines.append({'ev': 'global', 'cell': gen.lit('gcom', r.choice(gen.GCOMS))})
+    nkey = [0]
+    typ = {}
+
+    def new_path(t):
+        nkey[0] += 1
+        typ[nkey[0]] = t
+        return nkey[0]
+
+    def row(cells):
+        lines.append({'ev': 'row', 'cells': cells})
+    for section in range(r.choice([1, 1, 2])):
+        types = [r.choice(['**kern', '**kern', '**text', '**dynam']) for _ in range(r.choice([1, 2, 2, 3]))]
+        lines.append({'ev': 'header', 'cells': [gen.lit('hdr', t) for t in types]})
+        paths = [new_path(t) for t in types]
+        m = 1
+        for _ in range(r.randint(3, 12)):
+            if not paths:
+                break
+            k = r.random()
+            if k < 0.4:
+                row([g.data_cell(typ[p]) for p in paths])
+            elif k < 0.5:
+                b = g.bar(m)
+                m += 1
+                row([dict(b) for _ in paths])
+            elif k < 0.6:
+                row([(g.interp_cell(typ[p], 'clef') if typ[p] == '**kern' and r.random() < 0.6 else gen.NULLI()) for p in paths])
+            elif k < 0.65:
+                lines.append({'ev': 'global', 'cell': gen.lit('gcom', r.choice(gen.GCOMS))})
+            elif k < 0.8 and len(paths) < 5:
+                j = r.randrange(len(paths))                   # '*+' and the line that names the new spine
+                row([gen.ADD() if i == j else gen.NULLI() for i in range(len(paths))])
+                t = r.choice(['**text', '**dynam', '**kern', '**fing'])
+                q = new_path(t)
+                paths = paths[:j + 1] + [q] + paths[j + 1:]
+                row([gen.lit('hdr', t) if p == q else gen.NULLI() for p in paths])
+            elif k < 0.97:
+                g.ops_row(paths, row)
+            else:
+                row([gen.EXCH() if i < 2 else gen.NULLI() for i in range(len(paths))] if len(paths) > 1 else [gen.EXCH()])
+                lines[-1]['ev'] = 'unsupported'
+                return lines
+        if paths:
+            row([gen.TERM() for _ in paths])
+    for _ in range(r.choice([0, 0, 1])):
+        lines.append({'ev': 'global', 'cell': gen.lit('gcom', r.choice(gen.GCOMS))})
+    return lines
+
+
+def sess_ext(seed):
+    from .. import session
+    import kernpy as kp
+    r = random.Random(seed)
+    lines = ext_document(r)
+    evs, doc, text = session.record_import(lines)
+    if doc is not None:
+        other_text = r.choice([text, '**kern\t**text\n4c\tla\n*-\t*-\n', '**kern\n*-\n', '**kern\t**kern\n*-\t*-\n', '**text\t**kern\t**dynam\n*-\t*-\t*-\n'])
+        other, _ = kp.loads(other_text)
+        for c in ({'op': 'dumps', 'args': session.dumps_args(), 'exact': True}, {'op': 'listing', 'args': {'incall': True, 'inc': []}},
+                  {'op': 'spine_ids', 'args': {}}, {'op': 'small', 'args': {}, '_other': other}, {'op': 'graph', 'args': {}},
+                  {'op': 'dumps', 'args': session.dumps_args(ids=[0], enc='ekern'), 'exact': True}):
+            evs.append(session.record_call(doc, c))
+    return dp.finish_session(lines, evs, text, seed, dp.features(lines) | {'extended-machine'})
+
+
 def main():
     t0 = time.time()
     recs = records()
@@ -97,6 +170,19 @@ def main():
     npage = sum(1 for s in sess for e in s['log'] if e['ev'] == 'end' and e['obs']['pages'])
     pdev = [s['text'] for s, v in zip(sess, vs) if any(c == 'end.page_index' for _, c in v.fails)]
     gdev = [(s['text'], c) for s, v in zip(sess, vs) for _, c in v.fails if c.startswith('graph.')]
+    # the extended row machine ('*+' and the line naming the new spine, several sections, '*x') and the small queries
+    sx = docs.build_sessions(sess_ext, [4343000 + i for i in range(300)])
+    vx, tl3 = tlc.validate_traces('Trace_Session', [s['log'] for s in sx])
+    xdev = {}
+    nblocked = 0
+    for s_, v in zip(sx, vx):
+        if v.reached != v.length:
+            nblocked += 1
+            print('EXTRA-DEVIATION: the row machine does not allow event', v.reached + 1, 'of', repr(s_['text'][:300]))
+        for pos, c in v.fails:
+            xdev.setdefault(c, []).append((s_['text'], pos))
+    for c, xs in sorted(xdev.items()):
+        print(f'EXTRA-DEVIATION: clause {c} fails {len(xs)} time(s), e.g. event {xs[0][1]} of {xs[0][0][:300]!r}')
     for t, c in gdev[:5]:
         print('EXTRA-DEVIATION:', c, 'of', repr(t[:200]))
     for r in dev[:10]:
@@ -106,10 +192,14 @@ def main():
     for k, n in known.items():
         print(f'EXTRA-KNOWN: {k} x{n}: {KNOWN[k]}')
     out = {'records': len(recs), 'deviations': len(dev), 'known_deviations': known, 'documents_with_page_boxes': npage, 'page_index_deviations': len(pdev), 'graph_exports': len(sess), 'graph_deviations': len(gdev),
-           'states': sum(t.distinct for t in tl + tl2), 'wall_s': round(time.time() - t0, 1)}
-    os.makedirs(os.path.join(VERIF, 'evidence'), exist_ok=True)
-    with open(os.path.join(VERIF, 'evidence', 'extras.json'), 'w') as f:
-        json.dump(out, f, indent=1)
+           'extended_machine_documents': len(sx), 'extended_machine_with_add_spine': sum(1 for s_ in sx if '*+' in s_['text']),
+           'extended_machine_with_exchange': sum(1 for s_ in sx if '*x' in s_['text']), 'extended_machine_sections>1': sum(1 for s_ in sx if s_['text'].count('\n**') + s_['text'].startswith('**') > 1),
+           'extended_machine_blocked': nblocked, 'extended_machine_deviations': {c: len(x) for c, x in xdev.items()},
+           'states': sum(t.distinct for t in tl + tl2 + tl3), 'wall_s': round(time.time() - t0, 1)}
+    if os.environ.get('VERIF_REPO', '/repo') == '/repo':          # a development run against a scratch repository writes nothing
+        os.makedirs(os.path.join(VERIF, 'evidence'), exist_ok=True)
+        with open(os.path.join(VERIF, 'evidence', 'extras.json'), 'w') as f:
+            json.dump(out, f, indent=1)
     print('[extras]', out)
     return 0
 
